@@ -225,6 +225,41 @@ func runC16(c *Ctx) {
 					}
 				}
 			}
+			// an option function declared at package level: the guard is where the function is handed out
+			if !ok && fi.Decl.Recv == nil && fi.Decl.Type.Params.NumFields() == 1 && typeIs(derefType(info.TypeOf(fi.Decl.Type.Params.List[0].Type)), pMigrate, "PlanOptions") {
+				refs, guardedRefs := 0, 0
+				c.AllFuncs(false, func(uf *FuncInfo) {
+					if uf.Pkg != fi.Pkg {
+						return
+					}
+					uinfo := uf.Info()
+					upm := parentMap(uf.Decl.Body)
+					ast.Inspect(uf.Decl.Body, func(k ast.Node) bool {
+						id, isID := k.(*ast.Ident)
+						if !isID || uinfo.ObjectOf(id) != types.Object(fi.Obj) {
+							return true
+						}
+						refs++
+						for p := upm[id]; p != nil; p = upm[p] {
+							ifs, isIf := p.(*ast.IfStmt)
+							if !isIf || !(ifs.Body.Pos() <= id.Pos() && id.End() <= ifs.Body.End()) {
+								continue
+							}
+							for _, fct := range impliedFacts(ifs.Cond, true) {
+								be, isBin := fct.expr.(*ast.BinaryExpr)
+								if isBin && be.Op == token.NEQ && fct.val {
+									if s, isStr := stringConst(uinfo, be.Y); isStr && s == "" && strings.HasSuffix(types.ExprString(be.X), ".URL.Schema") {
+										guardedRefs++
+										return true
+									}
+								}
+							}
+						}
+						return true
+					})
+				})
+				ok = refs > 0 && refs == guardedRefs
+			}
 			c.Check("R16d", fi.Name+"|"+what, n.Pos(), ok, "%s in %s is not guarded by `<client>.URL.Schema != \"\"`: a realm-scoped connection would get unqualified statements (or a schema-scoped one qualified statements)", what, fi.Name)
 		}
 		ast.Inspect(fi.Decl.Body, func(m ast.Node) bool {
